@@ -313,6 +313,10 @@ def main(tier, replay=None, rep=None, prop=PROP, cases=None):
         import tacticdrv
 
         n_disp, _ = tacticdrv.conformance(rep, rd, PROP, cases[: 80 if tier == "quick" else 800])
+        import t4drv
+
+        n_t4, _ = t4drv.conformance(rep, rd, PROP, tier, [c for c in cases if "S" in c][: 120 if tier == "quick" else 1500], seed())
+        n_disp += n_t4
     shutil.rmtree(rd, ignore_errors=True)
     if collect:
         return {"evaluations": n_ev, "nontrivial": nontrivial, "traces": len(traces), "verdict_counts": counts}
